@@ -42,7 +42,7 @@ RULE = ("each run draws an upstream behaviour - a complete response (every statu
         "and a downstream peer that waits or leaves early. distinct = distinct (behaviour, status "
         "class, charset, assembly, outcome) signatures; non-trivial = a fault or a non-UTF-8 / "
         "binary / redirect response was relayed")
-PROBES = ["crowd_left_before_the_request", "trickling_upstream", "non_utf8_text_relayed", "binary_relayed", "redirect_relayed", "refused", "blackhole",
+PROBES = ["upstream_certificate_renewed_between_requests", "crowd_left_before_the_request", "trickling_upstream", "non_utf8_text_relayed", "binary_relayed", "redirect_relayed", "refused", "blackhole",
           "tls_failure", "close_before_header", "close_inside_header", "garbage_header",
           "rst_in_body", "stall_timeout", "oversized", "downstream_left_early",
           "start_server_assembly", "every_status_class", "concurrent_requests_through_proxy"]
@@ -133,7 +133,11 @@ def gen_upstream(ch, cap):
                     end=ch.pick("chend", ["close", "fin", "rst"]))
     elif b == 6:
         g = ch.pick("garbage", [b"XX nonsense\r\n", b"200 three\r\n", b"2 one\r\n", b"99 out\r\n",
-                                b"20 \xff\xfe\r\n", b"\r\n", b"hello world\r\n", b"05 low\r\n"])
+                                b"20 \xff\xfe\r\n", b"\r\n", b"hello world\r\n", b"05 low\r\n",
+                                # long ones: whatever text the proxy builds from them stays a
+                                # well-formed 43
+                                b"<html>" + b"w" * 1000 + b"\r\n", "\u00fc".encode() * 600 + b"\r\n",
+                                b"9" * 2000 + b" big\r\n"])
         info.update(name="garbage-header", must="43", stream=g + b"body")
     elif b == 7:
         body = b"x" * (200 + ch.choose("rb", 20000))
@@ -227,12 +231,19 @@ def run_one(ch):
     # concurrent "noise" requests through the same proxy (one shared client inside it)
     noise_n = 0
     mass_leave = False
+    warmup = False
     if up["beh"] not in (1, 2, 3) and not up.get("stall_handshake") and script[:1] == [("wait_line",)] \
             and ch.chance("noise", 0.3):
         noise_n = 1 + ch.choose("noisen", 3)
         # ... or a crowd of clients that give up while their (slow) upstream fetch is pending,
         # before the judged request arrives
         mass_leave = ch.chance("mass_leave", 0.15)
+        # ... or a single earlier request, after which the upstream renews its certificate:
+        # the proxy relays, it does not pin
+        warmup = (not mass_leave) and ch.chance("warmup", 0.25)
+        if warmup:
+            noise_n = 1
+            res.stats["upstream_certificate_renewed_between_requests"] += 1
         if mass_leave:
             noise_n = 16 + ch.choose("crowd", 6)
             res.stats["crowd_left_before_the_request"] += 1
@@ -310,6 +321,10 @@ def run_one(ch):
         out["noise"] = noise
         if mass_leave:
             await asyncio.sleep(0.3)
+            t_req = net.now
+        if warmup and upstream is not None:
+            await asyncio.sleep(0.5)
+            upstream.cert = "rsa4"
             t_req = net.now
         ep = raw_connect(net, PROXY, 1965, c2s=WholePolicy(0.001), s2c=WholePolicy(0.001), tag="down")
         peer = RawPeer(net, ep, dscript, tls_ctx=sw.peer_tls_ctx(mode), name="downstream")
